@@ -34,7 +34,8 @@ MANIFEST = {
                   "timescale) ns whenever that value is an int64 (C09_time_code; C09_time_code_exact on the bare columns with no more "
                   "hypotheses than C09_decode_time_exact; int64 wrap-around, Go's truncated division and the divide-by-zero panic are in "
                   "the model); the pinned uint32 accumulator is refuted from 2^32 units on (C09_time_code_pinned_refuted, witness "
-                  "reproduced on the code). The model is tied to /repo on every run: the real ctts and "
+                  "reproduced on the code); for sample number 0 and every number past the last sample it returns the time code of the END "
+                  "of the track for every table with < 2^32 samples (C09_time_code_past_end; outside the property's range). The model is tied to /repo on every run: the real ctts and "
                   "stsc boxes are built by a random history (empty box or DECODED PREFIX + the remaining rows split into 1-4 builder calls, "
                   "empty calls, SetSingleSampleDescriptionID over scrambled ids, refused calls in the malformed stream), the plain boxes by "
                   "struct literal / decoder / CreateSdtpBox; cache fields are compared after every call and EVERY query is run on EVERY "
@@ -83,7 +84,7 @@ def _corr(ctx, exe, model, args, label):
                 k, v = kv.split("=")
                 a, b = v.split("/")
                 name = {"rows": "C09_builder_consistent_rows (valid tables whose history satisfies the hypotheses / valid tables)",
-                        "tc": "C09_time_code (GetTimeCode queries within the hypotheses, conclusion true / GetTimeCode queries on valid tables)"}[k]
+                        "tc": "C09_time_code + C09_time_code_past_end (GetTimeCode queries within the hypotheses of one of them, conclusion true / GetTimeCode queries on valid tables)"}[k]
                 old = hyp.get(name, "0/0").split("/")
                 hyp[name] = "%d/%d" % (int(old[0]) + int(a), int(old[1]) + int(b))
     return lines, mism, nq
